@@ -4,7 +4,11 @@
 
    One function [call] models BOTH the cached and the cache-free semantics
    ([use_cache] switches lookups and saves off), so that transparency is a
-   statement about one definition.
+   statement about one definition.  [sysfix] selects the CURRENT code
+   (/repo 581cf1c: `Predicate` given a system-predicate spec / ident /
+   bicoords returns the Predicate.System member before anything else) or, when
+   false, the code before that repair (kept so that the `_old_refuted`
+   theorems document that the statements discriminate).
 
    Modelled call shapes (others return Err and are not claimed to
    correspond): coordinates as ints or one tuple of ints; components given as
@@ -133,7 +137,7 @@ Definition spec_args (a : item) : list pv :=
 Definition ident_pv (a : item) : pv := PTup [PStr (cls_name (item_cls a)); PTup (spec_args a)].
 
 (* ---- the cache ---- *)
-Record cfg := { use_cache : bool; maxlen : nat }.
+Record cfg := { use_cache : bool; maxlen : nat; sysfix : bool }.
 Definition key := (string * list pv)%type.
 Record cache := { queue : list item; idx : list (key * item) }.
 Definition empty : cache := {| queue := []; idx := [] |}.
@@ -175,8 +179,21 @@ Definition save (c : cfg) (st : cache) (k : key) (v : item) : cache :=
     {| queue := fst qi ++ [v]; idx := set_idx (snd qi) k v |}.
 
 Inductive ekind := ETypeError | EValueError.
-Inductive res := OK (a : item) | Err (e : ekind) | Fuel.
-Inductive resl := OKs (l : list item) | Errs (e : ekind) | Fuels.
+Inductive R (A : Type) := OK (a : A) | Err (e : ekind) | Fuel.
+Arguments OK {A} a.
+Arguments Err {A} e.
+Arguments Fuel {A}.
+Definition res := R item.
+
+(* state monad over the cache *)
+Definition M (A : Type) := cache -> R A * cache.
+Definition lift {A} (r : R A) : M A := fun st => (r, st).
+Definition bind {A B} (m : M A) (f : A -> M B) : M B :=
+  fun st => match m st with
+            | (OK a, s) => f a s
+            | (Err e, s) => (Err e, s)
+            | (Fuel, s) => (Fuel, s)
+            end.
 
 Definition MAXI (k : cls) : Z := match k with CAtomic => 4 | _ => 3 end.
 
@@ -235,29 +252,37 @@ Definition oper_of (x : pv) : res :=
   | _ => Err EValueError
   end.
 
+Definition sys_name (p : pred) : string :=
+  if Z.eqb (pidx p) (-1) then "Identity" else "Existence".
+Definition system_preds : list pred := [Existence; Identity].
+
+(* Predicate.System(arg) for a string *)
 Definition sys_pred_of (s : string) : res :=
-  if String.eqb s "Identity" then OK (IPred Identity)
-  else if String.eqb s "Existence" then OK (IPred Existence)
-  else Err EValueError.
-
-Section Rec.
-(* the metaclass call one level down *)
-Variable rec : cls -> list pv -> cache -> res * cache.
-
-Fixpoint map_call (k : cls) (l : list pv) (st : cache) : resl * cache :=
-  match l with
-  | [] => (OKs [], st)
-  | x :: l' =>
-      match rec k [x] st with
-      | (OK a, st1) =>
-          match map_call k l' st1 with
-          | (OKs r, st2) => (OKs (a :: r), st2)
-          | other => other
-          end
-      | (Err e, st1) => (Errs e, st1)
-      | (Fuel, st1) => (Fuels, st1)
-      end
+  match find (fun p => String.eqb (sys_name p) s) system_preds with
+  | Some p => OK (IPred p)
+  | None => Err EValueError
   end.
+
+(* Predicate.System[key]: the member lookup keys of a system predicate are its
+   name, (name,), spec, ident, bicoords and the member itself
+   (EnumLookup._default_keys + SystemPredicate._member_keys = pred.refs | {pred}) *)
+Definition sys_keys (p : pred) : list pv :=
+  [PStr (sys_name p); PTup [PStr (sys_name p)]; PTup (pred_spec p);
+   PTup [PStr "Predicate"; PTup (pred_spec p)];
+   PTup [PInt (pidx p); PInt (Z.of_N (psub p))]; PItem (IPred p)].
+Definition sys_lookup (key : pv) : option pred :=
+  find (fun p => existsb (pv_eqb key) (sys_keys p)) system_preds.
+
+Definition as_pred (a : item) : M pred :=
+  match a with IPred p => lift (OK p) | _ => lift (Err ETypeError) end.
+Definition as_quant (a : item) : M quant :=
+  match a with IQuant q => lift (OK q) | _ => lift (Err ETypeError) end.
+Definition as_oper (a : item) : M oper :=
+  match a with IOper o => lift (OK o) | _ => lift (Err ETypeError) end.
+Definition as_sent (a : item) : M sent :=
+  match a with ISent s => lift (OK s) | _ => lift (Err ETypeError) end.
+Definition as_var (a : item) : M (N * N) :=
+  match a with IParam (Var i s) => lift (OK (i, s)) | _ => lift (Err ETypeError) end.
 
 Definition params_of_items (l : list item) : option (list param) :=
   fold_right (fun a acc => match a, acc with IParam p, Some r => Some (p :: r) | _, _ => None end)
@@ -266,145 +291,154 @@ Definition sents_of_items (l : list item) : option (list sent) :=
   fold_right (fun a acc => match a, acc with ISent s, Some r => Some (s :: r) | _, _ => None end)
              (Some []) l.
 
+Definition mk_predicated (p : pred) (items : list item) : res :=
+  match params_of_items items with
+  | Some ps => if Nat.eqb (List.length ps) (N.to_nat (parity p))
+               then OK (ISent (Pred p ps)) else Err ETypeError
+  | None => Err ETypeError
+  end.
+Definition mk_operated (o : oper) (items : list item) : res :=
+  match sents_of_items items with
+  | Some [a] => if Nat.eqb (arity o) 1 then OK (ISent (Un o a)) else Err EValueError
+  | Some [a; b] => if Nat.eqb (arity o) 2 then OK (ISent (Bin o a b)) else Err EValueError
+  | Some _ => Err EValueError                (* Emsg.ArityMismatch *)
+  | None => Err ETypeError
+  end.
+
+Definition is_param_item (a : item) : bool := match a with IParam _ => true | _ => false end.
+Definition is_sent_item (a : item) : bool := match a with ISent _ => true | _ => false end.
+
+Section Rec.
+(* the metaclass call one level down *)
+Variable rec : cls -> list pv -> M item.
+
+Fixpoint map_call (k : cls) (l : list pv) : M (list item) :=
+  match l with
+  | [] => lift (OK [])
+  | x :: l' => bind (rec k [x]) (fun a => bind (map_call k l') (fun r => lift (OK (a :: r))))
+  end.
+
+(* the parameters / operands argument: one instance, or an iterable whose
+   elements are converted by Parameter(...) / Sentence(...) *)
+Definition items_arg (K : cls) (sel : item -> bool) (x : pv) : M (list item) :=
+  match x with
+  | PItem a => if sel a then lift (OK [a]) else lift (Err ETypeError)
+  | PTup l => map_call K l
+  | _ => lift (Err ETypeError)
+  end.
+
 (* supercall(cls, *spec): __new__ + __init__ of the invoked class *)
-Definition construct (k : cls) (args : list pv) (st : cache) : res * cache :=
+Definition construct (k : cls) (args : list pv) : M item :=
   match k with
   | CConstant | CVariable | CAtomic =>
-      match unwrap1 args with
-      | Some l => (build_coords k l, st)
-      | None => (Err ETypeError, st)
-      end
+      lift (match unwrap1 args with Some l => build_coords k l | None => Err ETypeError end)
   | CPredicate =>
-      match unwrap1 args with
-      | Some l => (build_pred l, st)
-      | None => (Err ETypeError, st)
-      end
+      lift (match unwrap1 args with Some l => build_pred l | None => Err ETypeError end)
   | CPredicated =>
       match args with
-      | [] => (Err ETypeError, st)
+      | [] => lift (Err ETypeError)
       | parg :: rest =>
           let params := match rest with [x] => x | _ => PTup rest end in
-          match rec CPredicate [parg] st with
-          | (OK (IPred p), st1) =>
-              let r := match params with
-                       | PItem (IParam x) => (OKs [IParam x], st1)
-                       | PTup l => map_call CParameter l st1
-                       | _ => (Errs ETypeError, st1)
-                       end in
-              match r with
-              | (OKs items, st2) =>
-                  match params_of_items items with
-                  | Some ps => if Nat.eqb (List.length ps) (N.to_nat (parity p))
-                               then (OK (ISent (Pred p ps)), st2) else (Err ETypeError, st2)
-                  | None => (Err ETypeError, st2)
-                  end
-              | (Errs e, st2) => (Err e, st2)
-              | (Fuels, st2) => (Fuel, st2)
-              end
-          | (OK _, st1) => (Err ETypeError, st1)
-          | other => other
-          end
+          bind (rec CPredicate [parg]) (fun a =>
+          bind (as_pred a) (fun p =>
+          bind (items_arg CParameter is_param_item params)
+               (fun items => lift (mk_predicated p items))))
       end
   | CQuantified =>
       match args with
       | [q; v; s] =>
-          match quant_of q with
-          | OK (IQuant qq) =>
-              match rec CVariable [v] st with
-              | (OK (IParam (Var vi vs)), st1) =>
-                  match rec CSentence [s] st1 with
-                  | (OK (ISent b), st2) => (OK (ISent (Quant qq vi vs b)), st2)
-                  | (OK _, st2) => (Err ETypeError, st2)
-                  | other => other
-                  end
-              | (OK _, st1) => (Err ETypeError, st1)
-              | other => other
-              end
-          | OK _ => (Err ETypeError, st)
-          | other => (other, st)
-          end
-      | _ => (Err ETypeError, st)
+          bind (lift (quant_of q)) (fun a =>
+          bind (as_quant a) (fun qq =>
+          bind (rec CVariable [v]) (fun a1 =>
+          bind (as_var a1) (fun vv =>
+          bind (rec CSentence [s]) (fun a2 =>
+          bind (as_sent a2) (fun b => lift (OK (ISent (Quant qq (fst vv) (snd vv) b)))))))))
+      | _ => lift (Err ETypeError)
       end
   | COperated =>
       match args with
-      | [] => (Err ETypeError, st)
+      | [] => lift (Err ETypeError)
       | oarg :: rest =>
           let operands := match rest with [x] => x | _ => PTup rest end in
-          match oper_of oarg with
-          | OK (IOper o) =>
-              let r := match operands with
-                       | PItem (ISent x) => (OKs [ISent x], st)
-                       | PTup l => map_call CSentence l st
-                       | _ => (Errs ETypeError, st)
-                       end in
-              match r with
-              | (OKs items, st2) =>
-                  match sents_of_items items with
-                  | Some [a] => if Nat.eqb (arity o) 1 then (OK (ISent (Un o a)), st2)
-                                else (Err EValueError, st2)
-                  | Some [a; b] => if Nat.eqb (arity o) 2 then (OK (ISent (Bin o a b)), st2)
-                                   else (Err EValueError, st2)
-                  | Some _ => (Err EValueError, st2)       (* Emsg.ArityMismatch *)
-                  | None => (Err ETypeError, st2)
-                  end
-              | (Errs e, st2) => (Err e, st2)
-              | (Fuels, st2) => (Fuel, st2)
-              end
-          | OK _ => (Err ETypeError, st)
-          | other => (other, st)
-          end
+          bind (lift (oper_of oarg)) (fun a =>
+          bind (as_oper a) (fun o =>
+          bind (items_arg CSentence is_sent_item operands)
+               (fun items => lift (mk_operated o items))))
       end
-  | CQuantifier => (match args with [x] => quant_of x | _ => Err ETypeError end, st)
-  | COperator => (match args with [x] => oper_of x | _ => Err ETypeError end, st)
-  | CParameter | CSentence | CCoordsItem | CLexicalAbc => (Err ETypeError, st)   (* abstract *)
+  | CQuantifier => lift (match args with [x] => quant_of x | _ => Err ETypeError end)
+  | COperator => lift (match args with [x] => oper_of x | _ => Err ETypeError end)
+  | CParameter | CSentence | CCoordsItem | CLexicalAbc => lift (Err ETypeError)   (* abstract *)
   end.
 End Rec.
 
+(* The special cases at the top of metacall.call: passthrough of an instance,
+   system predicate by name, and (current code) system predicate by any of its
+   lookup keys. *)
+Definition special (c : cfg) (k : cls) (args : list pv) : option res :=
+  let s1 := match args with
+            | [PItem a] => if issub (item_cls a) k then Some (OK a) else None
+            | [PStr s] => match k with CPredicate => Some (sys_pred_of s) | _ => None end
+            | _ => None
+            end in
+  match s1 with
+  | Some r => Some r
+  | None =>
+      match k with
+      | CPredicate =>
+          if sysfix c
+          then option_map (fun p => OK (IPred p))
+                          (sys_lookup (match args with [x] => x | _ => PTup args end))
+          else None
+      | _ => None
+      end
+  end.
+
+Definition save2 (c : cfg) (st : cache) (ky : key) (inst : item) : cache :=
+  save c (save c st ky inst) (ident_key inst) inst.
+
+(* the `except TypeError` branch: an abstract class given an ident *)
+Definition fallback (rec : cls -> list pv -> M item) (c : cfg) (k : cls) (args : list pv) : M item :=
+  fun st1 =>
+  if concrete k || negb (Nat.eqb (List.length args) 1) then (Err ETypeError, st1)
+  else
+    match args with
+    | [PTup [PStr cn; PTup sp]] =>
+        match cls_of_name cn with
+        | None => (Err EValueError, st1)
+        | Some C =>
+            if negb (is_lexabc k || issub C k) then (Err ETypeError, st1)
+            else match lookup c st1 (cn, sp) with
+                 | Some v => (OK v, st1)
+                 | None =>
+                     match rec C sp st1 with
+                     | (OK inst, st2) => (OK inst, save2 c st2 (cn, sp) inst)
+                     | other => other
+                     end
+                 end
+        end
+    | [PTup [_; _]] => (Err EValueError, st1)
+    | _ => (Err ETypeError, st1)
+    end.
+
 (* metacall.call(cls, *spec) *)
-Fixpoint call (fuel : nat) (c : cfg) (k : cls) (args : list pv) (st : cache) : res * cache :=
+Fixpoint call (fuel : nat) (c : cfg) (k : cls) (args : list pv) : M item :=
   match fuel with
-  | O => (Fuel, st)
+  | O => lift Fuel
   | S f =>
     match k with
-    | CQuantifier | COperator => construct (call f c) k args st     (* Enum call: no cache *)
+    | CQuantifier | COperator => construct (call f c) k args     (* Enum call: no cache *)
     | _ =>
-      let special :=
-        match args with
-        | [PItem a] => if issub (item_cls a) k then Some (OK a) else None      (* passthrough *)
-        | [PStr s] => match k with CPredicate => Some (sys_pred_of s) | _ => None end
-        | _ => None
-        end in
-      match special with
-      | Some r => (r, st)
+      match special c k args with
+      | Some r => lift r
       | None =>
+        fun st =>
         let ky := (cls_name k, args) in
         match lookup c st ky with
         | Some v => (OK v, st)
         | None =>
           match construct (call f c) k args st with
-          | (OK inst, st1) => (OK inst, save c (save c st1 ky inst) (ident_key inst) inst)
-          | (Err ETypeError, st1) =>
-              if concrete k || negb (Nat.eqb (List.length args) 1) then (Err ETypeError, st1)
-              else
-                match args with
-                | [PTup [PStr cn; PTup sp]] =>
-                    match cls_of_name cn with
-                    | None => (Err EValueError, st1)
-                    | Some C =>
-                        if negb (is_lexabc k || issub C k) then (Err ETypeError, st1)
-                        else match lookup c st1 (cn, sp) with
-                             | Some v => (OK v, st1)
-                             | None =>
-                                 match call f c C sp st1 with
-                                 | (OK inst, st2) =>
-                                     (OK inst, save c (save c st2 (cn, sp) inst) (ident_key inst) inst)
-                                 | other => other
-                                 end
-                             end
-                    end
-                | [PTup [_; _]] => (Err EValueError, st1)
-                | _ => (Err ETypeError, st1)
-                end
+          | (OK inst, st1) => (OK inst, save2 c st1 ky inst)
+          | (Err ETypeError, st1) => fallback (call f c) c k args st1
           | other => other
           end
         end
@@ -412,8 +446,11 @@ Fixpoint call (fuel : nat) (c : cfg) (k : cls) (args : list pv) (st : cache) : r
     end
   end.
 
-Definition cached (ml : nat) : cfg := {| use_cache := true; maxlen := ml |}.
-Definition nocache : cfg := {| use_cache := false; maxlen := 0 |}.
+Definition cached (ml : nat) : cfg := {| use_cache := true; maxlen := ml; sysfix := true |}.
+Definition nocache : cfg := {| use_cache := false; maxlen := 0; sysfix := true |}.
+(* the code before /repo 581cf1c *)
+Definition cached_old (ml : nat) : cfg := {| use_cache := true; maxlen := ml; sysfix := false |}.
+Definition nocache_old : cfg := {| use_cache := false; maxlen := 0; sysfix := false |}.
 
 (* A history of constructor calls, from some state. *)
 Definition op := (cls * list pv)%type.
@@ -427,6 +464,8 @@ Fixpoint run (fuel : nat) (c : cfg) (h : list op) (st : cache) : list res * cach
 
 (* The cache-free meaning of a call. *)
 Definition build0 (fuel : nat) (k : cls) (args : list pv) : res := fst (call fuel nocache k args empty).
+Definition build0_old (fuel : nat) (k : cls) (args : list pv) : res :=
+  fst (call fuel nocache_old k args empty).
 
 Definition res_eqb (a b : res) : bool :=
   match a, b with
@@ -440,10 +479,15 @@ Definition res_eqb (a b : res) : bool :=
 Definition transparent_b (fuel ml : nat) (h : list op) (o : op) : bool :=
   let st := snd (run fuel (cached ml) h empty) in
   res_eqb (fst (call fuel (cached ml) (fst o) (snd o) st)) (build0 fuel (fst o) (snd o)).
+Definition transparent_old_b (fuel ml : nat) (h : list op) (o : op) : bool :=
+  let st := snd (run fuel (cached_old ml) h empty) in
+  res_eqb (fst (call fuel (cached_old ml) (fst o) (snd o) st)) (build0_old fuel (fst o) (snd o)).
 
 (* rebuilding an item from its spec / its ident, cache-free *)
 Definition rebuild_spec (fuel : nat) (a : item) : res := build0 fuel (item_cls a) (spec_args a).
 Definition rebuild_ident (fuel : nat) (a : item) : res := build0 fuel CLexicalAbc [ident_pv a].
+Definition rebuild_spec_old (fuel : nat) (a : item) : res := build0_old fuel (item_cls a) (spec_args a).
+Definition rebuild_ident_old (fuel : nat) (a : item) : res := build0_old fuel CLexicalAbc [ident_pv a].
 
 (* ---- correspondence helpers (tools/c14.py) ---- *)
 Fixpoint trace (fuel : nat) (c : cfg) (h : list op) (st : cache) : list (res * list item) :=
@@ -467,5 +511,10 @@ Definition check_trace (fuel ml : nat) (pre h : list op) (obs : list (res * list
   : list (list bool) :=
   zip_obs (trace fuel (cached ml) h (snd (run fuel (cached ml) pre empty))) obs.
 
-Definition build0_all (fuel : nat) (h : list op) : list res :=
-  map (fun o => build0 fuel (fst o) (snd o)) h.
+(* every call of the history against its cache-free meaning *)
+Definition check_free (fuel : nat) (h : list op) (obs : list res) : list bool :=
+  map (fun p => res_eqb (build0 fuel (fst (fst p)) (snd (fst p))) (snd p)) (combine h obs).
+
+(* results only (large maxlen: the queue is not compared) *)
+Definition check_results (fuel ml : nat) (h : list op) (obs : list res) : list bool :=
+  map (fun p => res_eqb (fst (fst p)) (snd p)) (combine (trace fuel (cached ml) h empty) obs).
